@@ -328,6 +328,27 @@ theorem tracked_step {P : List Entry → Prop} {cw cw' : CWorld} {a : CAct} (ht 
 def SnapshotsOk (P : List Entry → Prop) (cw : CWorld) (acts : List CAct) : Prop :=
   ∀ pre cw', pre <+: acts → crun cw pre = some cw' → P (TrieBuf.entries cw'.st)
 
+theorem snapshotsOk_nil {P : List Entry → Prop} {cw : CWorld} (h0 : P (TrieBuf.entries cw.st)) : SnapshotsOk P cw [] := by
+  intro pre cw' hpre hr
+  have : pre = [] := List.prefix_nil.mp hpre
+  subst this
+  simp only [crun, Option.some.injEq] at hr
+  subst hr; exact h0
+
+/-- stepping a concrete history -/
+theorem snapshotsOk_cons {P : List Entry → Prop} {cw : CWorld} {a : CAct} {as : List CAct}
+    (h0 : P (TrieBuf.entries cw.st)) (cw1 : CWorld) (h1 : cstep cw a = some cw1) (h : SnapshotsOk P cw1 as) :
+    SnapshotsOk P cw (a :: as) := by
+  intro pre cw' hpre hr
+  cases pre with
+  | nil => simp only [crun, Option.some.injEq] at hr; subst hr; exact h0
+  | cons b pre =>
+    obtain ⟨s, hs⟩ := hpre
+    simp only [List.cons_append, List.cons.injEq] at hs
+    obtain ⟨rfl, hs⟩ := hs
+    simp only [crun, h1] at hr
+    exact h pre cw' ⟨s, hs⟩ hr
+
 theorem tracked_run {P : List Entry → Prop} {acts : List CAct} {cw cw' : CWorld} (ht : Tracked P cw)
     (hv : ∀ a ∈ acts, CActValid a) (hP : SnapshotsOk P cw acts) (h : crun cw acts = some cw') : Tracked P cw' := by
   induction acts generalizing cw with
